@@ -135,3 +135,31 @@ Theorem buffered_request_inside_grid_bbox :
     let '(x0, y0, x1, y1) := buffered_bbox ly l ub in
     gx0 (lg ly) <= x0 /\ gy0 (lg ly) <= y0 /\ x1 <= gx1 (lg ly) /\ y1 <= gy1 (lg ly).
 Proof. exact buffered_bbox_in_grid_bbox. Qed.
+
+(* TileManager.load_tile_coords with meta tiles, meta_buffer and minimize_meta_requests (upstream_requests = number of
+   upstream GetMap requests among the effects; missing_tiles = requested tiles of the grid that are not cached).
+   A request whose tiles are all cached reads them and does nothing else: no upstream request, no write. *)
+Theorem cached_request_costs_nothing :
+  forall ly cached cs, missing_tiles cached cs = [] ->
+    load_tile_coords ly cached cs = map ERead (somes cs) ++ map EProbe (somes cs).
+Proof. exact load_all_cached. Qed.
+
+(* Meta tiles only ever merge requests: never more upstream requests than missing tiles, whatever meta_size,
+   meta_buffer and minimize_meta_requests are. *)
+Theorem upstream_requests_at_most_missing_tiles :
+  forall ly cached cs, (upstream_requests (load_tile_coords ly cached cs) <= length (missing_tiles cached cs))%nat.
+Proof. exact load_upstream_at_most_missing. Qed.
+
+(* minimize_meta_requests on a cache with a meta grid (meta_size > 1x1 or meta_buffer > 0): at most one upstream
+   request per call, however many tiles are missing. *)
+Theorem minimize_meta_requests_one_upstream_request :
+  forall ly cached cs, has_meta_grid ly = true -> lminimize ly = true ->
+    (upstream_requests (load_tile_coords ly cached cs) <= 1)%nat.
+Proof. exact load_minimize_one_request. Qed.
+
+(* Without minimize_meta_requests: exactly one upstream request per distinct meta tile that has a missing tile. *)
+Theorem one_upstream_request_per_meta_tile :
+  forall ly cached cs, lminimize ly = false ->
+    upstream_requests (load_tile_coords ly cached cs) =
+      length (dedup_coords (map (main_tile ly) (missing_tiles cached cs))).
+Proof. exact load_one_request_per_meta_tile. Qed.
